@@ -46,7 +46,7 @@ def result_dtype_converted():
             for n in ast.walk(fn):
                 if (isinstance(n, ast.Call) and isinstance(n.func, ast.Attribute) and n.func.attr == "to"
                         and n.lineno >= anchor
-                        and any(isinstance(a, ast.Name) and a.id == "dtype" for a in n.args)):
+                        and any(isinstance(x, ast.Name) and x.id == "dtype" for a in n.args for x in ast.walk(a))):
                     return True
     return False
 
@@ -569,8 +569,9 @@ class C08(PropertyCheck):
                 seen_storage.setdefault(str(name), set()).add(storage)
                 if r.dims != [dims, dims] or not np.array_equal(r.full(), exp):
                     res.disagree(inp, "the specified embedding", "differs", "matrix elements under a dtype option", w)
-                elif conv and storage.lower() != (str(name).lower() if dt is not None else "csr"):
-                    res.disagree(inp, str(name), storage, "storage type of the result (the tree converts the result to dtype)")
+                elif conv and dt is not None and storage.lower() != str(name).lower():
+                    res.disagree(inp, str(name), storage, "storage type of the result (the tree converts the result to dtype)",
+                                 {"kind": "storage", "dims": dims, "targets": ts, "dtype": str(name)})
         if not conv:
             off = {k: sorted(v) for k, v in seen_storage.items() if k != "None" and {x.lower() for x in v} != {k.lower()}}
             res.notes.append("dtype: matrix elements identical under every dtype option; this tree converts only the operand, "
@@ -658,7 +659,9 @@ class C08(PropertyCheck):
                 if st != "ok":
                     return True, f"valid embedding rejected ({st})"
                 exp = spec_matrix(dims, ts, M)
-                if r.dims != [dims, dims] or not np.array_equal(r.full(), exp):
+                if r.dims != [dims, dims]:
+                    return True, f"result has dims {r.dims[0]}, register is {dims}"
+                if not np.array_equal(r.full(), exp):
                     bad = np.argwhere(r.full() != exp)[:1].tolist() if r.full().shape == exp.shape else "shape"
                     return True, f"matrix element mismatch at {bad}"
             return False, "equals the specified embedding"
@@ -674,6 +677,19 @@ class C08(PropertyCheck):
             if r.dims != [dims, dims] or not np.array_equal(r.full(), spec_matrix(dims, ts, M)):
                 return True, f"matrix elements differ from the specified embedding under dtype={dt}"
             return False, "equals the specified embedding"
+        elif w["kind"] == "storage":
+            # the documented meaning of `dtype` ("Data type of the output Qobj"); replayed for finding C08-1 only
+            dims, ts, dt = w["dims"], w["targets"], w["dtype"]
+            oper, M = generic_oper([dims[t] for t in ts])
+            st, r = impl_expand(dims, ts, oper, dt)
+            if st != "ok":
+                return True, f"valid embedding rejected under dtype={dt} ({st})"
+            storage = type(r.data).__name__
+            if storage.lower() != dt.lower():
+                return True, f"dtype={dt!r} requested, result stored as {storage}"
+            if not np.array_equal(r.full(), spec_matrix(dims, ts, M)):
+                return True, "matrix elements differ from the specified embedding"
+            return False, f"result stored as {storage}"
         elif w["kind"] == "outside":
             v = self._outside_call(w["case"])
             return (v == "ok"), f"{w['case']}: {v}"
@@ -706,6 +722,8 @@ class C08(PropertyCheck):
         if st != "ok":
             if wellformed and not cyc:
                 return True, f"well-formed request rejected ({st})"
+            if wellformed and cyc and all([want[(t + j) % len(want)] for t in ts] == list(opL) for j in range(len(want))):
+                return True, f"cyclic request whose every shift is well-formed rejected ({st})"
             return False, f"verdict {st}"
         rs = r if isinstance(r, list) else [r]
         if bool(cyc) != isinstance(r, list):
